@@ -108,6 +108,10 @@ void h_add_scenario(void)
     type = VNACAL_U8; rows = 3; cols = 2;
 #elif SCENARIO == 18
     type = VNACAL_T8; rows = 2; cols = 3;
+#elif SCENARIO == 19 || SCENARIO == 20
+    type = VNACAL_T8; rows = 3; cols = 3;
+#elif SCENARIO == 21
+    type = VNACAL_UE14; rows = 3; cols = 3;
 #endif
     ghost_err_reset();
     vcp = vnacal_create(verif_error_fn, NULL);
@@ -153,6 +157,12 @@ void h_add_scenario(void)
     rc = vnacal_new_add_through_m(vnp, m, 2, 2, 1, 2);
 #elif SCENARIO == 17 || SCENARIO == 18	/* reflect with a 1x1 m on port 3 of a 3x2 (2x3) calibration: port 3 has no column (row) in M */
     rc = vnacal_new_add_single_reflect_m(vnp, m, 1, 1, VNACAL_SHORT, 3);
+#elif SCENARIO == 19 || SCENARIO == 21	/* double reflect on ports (1,3) of a 3-port calibration, abbreviated 2x2 m: same standard as the mapped matrix {s11,0,0,s22} */
+    rc = vnacal_new_add_double_reflect_m(vnp, m, 2, 2, VNACAL_SHORT, VNACAL_OPEN, 1, 3);
+    expect_ok = 1;
+#elif SCENARIO == 20		/* ... and on ports (3,2) */
+    rc = vnacal_new_add_double_reflect_m(vnp, m, 2, 2, VNACAL_SHORT, VNACAL_OPEN, 3, 2);
+    expect_ok = 1;
 #elif SCENARIO == 15		/* T8 2x2, S given as 2x1 (second column unknown to the caller): accepted or refused, never a crash */
     rc = vnacal_new_add_mapped_matrix_m(vnp, m, 2, 2, s_full, 2, 1, map12);
     expect_ok = -1;
